@@ -1,6 +1,7 @@
 // C14 — igris::static_vector<T,N> (static_vector.h) and igris::static_string<N> (static_string.h).
 #include "c14_large.hpp"
 #include "c14_static.hpp"
+#include "c14_throw.hpp"
 #include <igris/container/static_string.h>
 #include <igris/container/static_vector.h>
 
@@ -19,5 +20,6 @@ MC_INIT
 {
     c14::register_all<Traits>();
     c14::register_large<Traits>();
+    c14::register_throwing<Traits>();
 }
 MC_MAIN
